@@ -1,13 +1,13 @@
 package main
 
 import (
-	"time"
 	"bytes"
 	"encoding/binary"
 	"fmt"
 	"reflect"
 	"runtime"
 	"strings"
+	"time"
 
 	kmip "github.com/smira/go-kmip"
 
